@@ -26,7 +26,12 @@ import (
 	"verif/harness/stats"
 )
 
-func TestMain(m *testing.M) { stats.Main(m) }
+func TestMain(m *testing.M) {
+	simnet.OnLivelock = func(msg string) {
+		stats.G().Violate("client-spins-on-expired-read-deadline", "the client does not return: "+msg, []byte(msg))
+	}
+	stats.Main(m)
+}
 
 // simServerConn is one dialed connection with its request/response server.
 type simServerConn struct {
